@@ -82,6 +82,11 @@ const (
 	kActualPtr      // the *int out-parameter
 	kOpaque         // something the translated part may only name (error positions)
 	kString         // a Go string (operationName)
+	kOp             // *ast.OperationDefinition variable (nil-able): Option (Op κ)
+	kOpDef          // a non-nil *ast.OperationDefinition obtained by a type assertion
+	kFragDefV       // a *ast.FragmentDefinition obtained by a type assertion (aux = Lean name of its name)
+	kDefElem        // the element variable of `range doc.Definitions`
+	kVarsVal        // the map returned by a successful CoerceVariableValues (non-nil)
 )
 
 type bind struct {
@@ -128,6 +133,9 @@ var leanKeywords = map[string]bool{"def": true, "end": true, "from": true, "at":
 	"return": true, "for": true, "unless": true, "try": true, "catch": true, "finally": true, "macro": true, "syntax": true,
 	"notation": true, "infix": true, "prefix": true, "postfix": true, "attribute": true, "local": true, "scoped": true,
 	"set_option": true, "using": true, "calc": true, "nomatch": true, "nofun": true, "suffices": true, "obtain": true,
+	"matches": true, "infixl": true, "infixr": true, "termination_by": true, "decreasing_by": true, "partial": true, "unsafe": true,
+	"noncomputable": true, "extends": true, "mut": true, "break": true, "continue": true, "omit": true, "include": true,
+	"rec": true, "this": true, "rest": true,
 	"Type": true, "Prop": true, "Sort": true, "s": true, "e": true, "none": true, "some": true, "true": true, "false": true}
 
 var tmpName = regexp.MustCompile(`^call[0-9]+$`)
@@ -138,7 +146,13 @@ type wtr struct {
 	tmp      int
 	stNames  [5]string // Lean names of cost, multipliers, ctxs, fragments, ret
 	inFinish bool
+	inRule   bool // translating the body of the rule itself (sequencing of loops, guard, walk, final block)
 	kappa    bool
+	// inside a translated `for … range` loop: the text of "go on with the next element" / "leave the loop"
+	loopNext  func(e env, ind string) string
+	loopBreak func(e env, ind string) string
+	lastLoopCall string // the read-only parameters of the loop translated last (" operationName")
+	nameGuard map[string]bool // Go variables d for which `d.Name != nil` is known at this point (right of `&&`)
 }
 
 func (w *wtr) fail(n ast.Node, format string, a ...any) { fail(w.fset, n, format, a...) }
@@ -198,6 +212,10 @@ func leanType(k kind) string {
 		return "List GErr"
 	case kFieldCost:
 		return "FieldCost κ"
+	case kOp:
+		return "Option (Op κ)"
+	case kTable:
+		return "String → Option (Node κ)"
 	}
 	return "?"
 }
@@ -353,11 +371,20 @@ func (w *wtr) strExpr(e env, x ast.Expr) (string, bool) {
 					}
 				}
 			}
+			// d.Name.Name of a fragment definition (the parser always gives a fragment a name)
+			if in, ok := unparen(x.X).(*ast.SelectorExpr); ok && in.Sel.Name == "Name" {
+				if b, _, ok := w.lookup(e, in.X); ok && b.k == kFragDefV {
+					return b.aux, true
+				}
+			}
 		}
 	case *ast.CallExpr:
 		// err.Error() of the argument-coercion error
 		if sel, ok := x.Fun.(*ast.SelectorExpr); ok && sel.Sel.Name == "Error" && len(x.Args) == 0 {
 			if b, _, ok := w.lookup(e, sel.X); ok && b.k == kArgErr {
+				if b.aux != "" {
+					return strconv.Quote(b.aux), true
+				}
 				return `"argument coercion"`, true
 			}
 		}
@@ -398,7 +425,27 @@ func (w *wtr) boolExpr(e env, x ast.Expr) string {
 	case *ast.BinaryExpr:
 		switch x.Op {
 		case token.LAND:
-			return "(" + w.boolExpr(e, x.X) + " ∧ " + w.boolExpr(e, x.Y) + ")"
+			left := w.boolExpr(e, x.X)
+			// `d.Name != nil && …`: the right side may read d.Name.Name
+			guarded := ""
+			if l, ok := unparen(x.X).(*ast.BinaryExpr); ok && l.Op == token.NEQ && isNil(l.Y) {
+				if sel, ok := unparen(l.X).(*ast.SelectorExpr); ok && sel.Sel.Name == "Name" {
+					if bd, gname, ok := w.lookup(e, sel.X); ok && bd.k == kOpDef && !w.nameGuard[gname] {
+						guarded = gname
+					}
+				}
+			}
+			if guarded != "" {
+				if w.nameGuard == nil {
+					w.nameGuard = map[string]bool{}
+				}
+				w.nameGuard[guarded] = true
+			}
+			right := w.boolExpr(e, x.Y)
+			if guarded != "" {
+				delete(w.nameGuard, guarded)
+			}
+			return "(" + left + " ∧ " + right + ")"
 		case token.LOR:
 			return "(" + w.boolExpr(e, x.X) + " ∨ " + w.boolExpr(e, x.Y) + ")"
 		case token.EQL, token.NEQ:
@@ -408,11 +455,22 @@ func (w *wtr) boolExpr(e env, x ast.Expr) string {
 				a, b = b, a
 			}
 			if isNil(b) {
+				if sel, ok := unparen(a).(*ast.SelectorExpr); ok && sel.Sel.Name == "Name" {
+					if bd, _, ok := w.lookup(e, sel.X); ok && bd.k == kOpDef {
+						p = "(" + bd.lean + ".name.isSome = true)"
+						if x.Op == token.EQL {
+							return "(¬ " + p + ")"
+						}
+						return p
+					}
+				}
 				bd, _, ok := w.lookup(e, a)
 				if !ok {
 					w.fail(x, "comparison of %s with nil", w.src(a))
 				}
 				switch bd.k {
+				case kOp:
+					p = "(" + bd.lean + ".isSome = true)"
 				case kVars, kActualPtr:
 					p = "(" + bd.lean + " = true)"
 				case kArgErr:
@@ -424,6 +482,26 @@ func (w *wtr) boolExpr(e env, x ast.Expr) string {
 					return "(¬ " + p + ")"
 				}
 				return p
+			}
+			// d.Name.Name == s for an operation definition d (its name is optional: only under `d.Name != nil &&`)
+			for _, pr := range [][2]ast.Expr{{a, b}, {b, a}} {
+				if sel, ok := unparen(pr[0]).(*ast.SelectorExpr); ok && sel.Sel.Name == "Name" {
+					if in, ok := unparen(sel.X).(*ast.SelectorExpr); ok && in.Sel.Name == "Name" {
+						if bd, gname, ok := w.lookup(e, in.X); ok && bd.k == kOpDef {
+							if !w.nameGuard[gname] {
+								w.fail(x, "%s is read without a preceding `%s.Name != nil &&`", w.src(pr[0]), gname)
+							}
+							other, ok := w.strExpr(e, pr[1])
+							if !ok {
+								w.fail(x, "comparison of a name with %s", w.src(pr[1]))
+							}
+							if x.Op == token.EQL {
+								return "(" + bd.lean + ".name = some " + other + ")"
+							}
+							return "(¬ " + bd.lean + ".name = some " + other + ")"
+						}
+					}
+				}
 			}
 			if sa, ok := w.strExpr(e, a); ok {
 				sb, ok := w.strExpr(e, b)
@@ -540,6 +618,33 @@ func (w *wtr) stmts(list []ast.Stmt, e env, ind string, k cont) string {
 					return fmt.Sprintf("%slet %s : List String := GoSet.delete %s %s\n", ind, b.lean, key, b.lean) + next(e2, ind)
 				}
 			}
+			if b, ok := e[id.Name]; ok && b.k == kVisit && len(call.Args) == 1 && w.inRule {
+				o, _, ok := w.lookup(e, call.Args[0])
+				if !ok || o.k != kOp {
+					w.fail(s, "the walk must start at the chosen operation: %s", w.src(s))
+				}
+				var vars, table string
+				for _, x := range e {
+					switch x.k {
+					case kVars:
+						vars = x.lean
+					case kTable:
+						table = x.lean
+					}
+				}
+				if vars == "" || table == "" {
+					w.fail(s, "the walk is started before the coerced variables and the fragment table exist")
+				}
+				var bld strings.Builder
+				fmt.Fprintf(&bld, "%smatch %s with\n%s| none => .error (.panic \"nil pointer dereference\")\n%s| some %s_val =>\n", ind, o.lean, ind, ind, o.lean)
+				fmt.Fprintf(&bld, "%s  match %s %s %s %s_val.node %s with\n%s  | .error e => .error e\n%s  | .ok s' =>\n", ind, b.lean, vars, table, o.lean, w.stTuple(e), ind, ind)
+				fields := []string{"cost", "multipliers", "ctxs", "fragments", "ret"}
+				kinds := []kind{kInt, kStackInt, kStackCtx, kSet, kErrs}
+				for i, n := range w.stNames {
+					fmt.Fprintf(&bld, "%s    let %s : %s := s'.%s\n", ind, n, leanType(kinds[i]), fields[i])
+				}
+				return bld.String() + next(e, ind+"    ")
+			}
 			if b, ok := e[id.Name]; ok && b.k == kVisit && len(call.Args) == 1 && !w.inFinish {
 				d, _, ok := w.lookup(e, call.Args[0])
 				if !ok || d.k != kFragDef {
@@ -562,6 +667,16 @@ func (w *wtr) stmts(list []ast.Stmt, e env, ind string, k cont) string {
 		return w.ifStmt(s, e, ind, next)
 	case *ast.TypeSwitchStmt:
 		return w.typeSwitch(s, e, ind, next)
+	case *ast.BranchStmt:
+		if s.Label == nil && w.loopNext != nil {
+			switch s.Tok {
+			case token.BREAK:
+				return w.loopBreak(e, ind)
+			case token.CONTINUE:
+				return w.loopNext(e, ind)
+			}
+		}
+		w.fail(s, "branch statement %s", w.src(s))
 	}
 	w.fail(s, "statement form %T (%s)", s, strings.SplitN(w.src(s), "\n", 2)[0])
 	return ""
@@ -588,6 +703,14 @@ func (w *wtr) assign(s *ast.AssignStmt, e env, ind string, next cont) string {
 				w.fail(s, "set insertion %s", w.src(s))
 			}
 			return fmt.Sprintf("%slet %s : List String := GoSet.insert %s %s\n", ind, b.lean, key, b.lean) + next(e, ind)
+		}
+		if b, _, ok := w.lookup(e, ix.X); ok && b.k == kTable && w.loopNext != nil {
+			key, okk := w.strExpr(e, ix.Index)
+			d, _, okd := w.lookup(e, rhs)
+			if !okk || !okd || d.k != kFragDefV {
+				w.fail(s, "fragment table assignment %s", w.src(s))
+			}
+			return fmt.Sprintf("%slet %s : %s := GoMap.set %s %s %s\n", ind, b.lean, leanType(kTable), key, d.lean, b.lean) + next(e, ind)
 		}
 		w.fail(s, "indexed assignment %s", w.src(s))
 	}
@@ -618,6 +741,23 @@ func (w *wtr) assign(s *ast.AssignStmt, e env, ind string, next cont) string {
 			return ind + "-- " + strings.ReplaceAll(w.src(s), "\n", " ") + "\n" + next(e2, ind)
 		}
 		return fmt.Sprintf("%slet %s : %s := %s\n", ind, name, leanType(k), val) + next(e2, ind)
+	}
+	// coercedVariableValues = v (the successfully coerced, non-nil map)
+	if exists && old.k == kVars && s.Tok == token.ASSIGN && w.inRule {
+		if v, _, ok := w.lookup(e, rhs); ok && v.k == kVarsVal {
+			return fmt.Sprintf("%slet %s : Bool := true\n", ind, old.lean) + next(e, ind)
+		}
+		w.fail(s, "the coerced variables may only be set to the result of CoerceVariableValues: %s", w.src(s))
+	}
+	// the nil-able operation variable
+	if exists && old.k == kOp && s.Tok == token.ASSIGN {
+		if isNil(rhs) {
+			return fmt.Sprintf("%slet %s : %s := none\n", ind, old.lean, leanType(kOp)) + next(e, ind)
+		}
+		if d, _, ok := w.lookup(e, rhs); ok && d.k == kOpDef {
+			return fmt.Sprintf("%slet %s : %s := some %s\n", ind, old.lean, leanType(kOp), d.lean) + next(e, ind)
+		}
+		w.fail(s, "assignment to the operation variable: %s", w.src(s))
 	}
 	// stack idioms
 	if ix, ok := rhs.(*ast.IndexExpr); ok {
@@ -844,6 +984,32 @@ func (w *wtr) ifStmt(s *ast.IfStmt, outer env, ind string, next cont) string {
 			w.fail(s, "init clause %s", w.src(s.Init))
 		}
 		rhs := unparen(as.Rhs[0])
+		if ta, ok := rhs.(*ast.TypeAssertExpr); ok && ta.Type != nil {
+			// d, ok := x.(*ast.OperationDefinition); ok   (x the element of `range doc.Definitions`)
+			xb, _, okx := w.lookup(e, ta.X)
+			if !okx || xb.k != kDefElem || !isIdent(unparen(s.Cond), l1.Name) || l0.Name == "_" {
+				w.fail(s, "type assertion %s; %s", w.src(s.Init), w.src(s.Cond))
+			}
+			var b strings.Builder
+			dn := w.declName(l0, e, l0.Name)
+			e2 := e.copy()
+			switch w.src(ta.Type) {
+			case "*ast.OperationDefinition":
+				e2[l0.Name] = bind{k: kOpDef, lean: dn, decl: newDecl()}
+				fmt.Fprintf(&b, "%smatch %s with\n%s| .operation %s =>\n", ind, xb.lean, ind, dn)
+				b.WriteString(w.stmts(s.Body.List, e2, ind+"  ", leave))
+				fmt.Fprintf(&b, "%s| .fragment _ _ =>\n", ind)
+			case "*ast.FragmentDefinition":
+				e2[l0.Name] = bind{k: kFragDefV, lean: dn, aux: dn + "_Name", decl: newDecl()}
+				fmt.Fprintf(&b, "%smatch %s with\n%s| .fragment %s_Name %s =>\n", ind, xb.lean, ind, dn, dn)
+				b.WriteString(w.stmts(s.Body.List, e2, ind+"  ", leave))
+				fmt.Fprintf(&b, "%s| .operation _ =>\n", ind)
+			default:
+				w.fail(s, "type assertion to %s", w.src(ta.Type))
+			}
+			b.WriteString(w.elseBranch(s, e, ind+"  ", leave))
+			return b.String()
+		}
 		switch r := rhs.(type) {
 		case *ast.IndexExpr:
 			if sel, ok := unparen(r.X).(*ast.SelectorExpr); ok && sel.Sel.Name == "FieldDefinitions" {
@@ -885,6 +1051,22 @@ func (w *wtr) ifStmt(s *ast.IfStmt, outer env, ind string, next cont) string {
 				w.fail(s, "lookup %s", w.src(rhs))
 			}
 		case *ast.CallExpr:
+			if w.inRule && isIdent(r.Fun, "CoerceVariableValues") && len(r.Args) == 4 {
+				// v, err := CoerceVariableValues(s, features, op, variableValues): succeeds or not (`variablesCoerce`);
+				// on success the returned map is non-nil (it is made by a map literal)
+				a0, _, ok0 := w.lookup(e, r.Args[0])
+				a1, _, ok1 := w.lookup(e, r.Args[1])
+				a2, _, ok2 := w.lookup(e, r.Args[2])
+				a3, _, ok3 := w.lookup(e, r.Args[3])
+				if !ok0 || !ok1 || !ok2 || !ok3 || a0.k != kOpaque || a1.k != kOpaque || a2.k != kOp || a3.k != kOpaque || a3.aux != "request-variables" {
+					w.fail(s, "arguments of CoerceVariableValues: %s (expected the schema, the features, the chosen operation, the request's variables)", w.src(r))
+				}
+				if l0.Name != "_" {
+					e[l0.Name] = bind{k: kVarsVal, lean: "true", decl: newDecl()}
+				}
+				e[l1.Name] = bind{k: kArgErr, lean: "(!variablesCoerce)", aux: "variable coercion", decl: newDecl()}
+				break
+			}
 			if !isIdent(r.Fun, "CoerceArgumentValues") || len(r.Args) != 4 {
 				w.fail(s, "init clause %s", w.src(s.Init))
 			}
@@ -1034,6 +1216,105 @@ func (w *wtr) typeSwitch(s *ast.TypeSwitchStmt, e env, ind string, next cont) st
 	return b.String()
 }
 
+// loop translates `for _, x := range doc.Definitions { … }` with exactly one loop-carried variable (the
+// operation variable or the fragment table) into a structurally recursive Lean function over the list of
+// definitions: falling off the body or `continue` = the recursive call, `break` = the variable as it is.
+func (w *wtr) loop(rs *ast.RangeStmt, top env) (name string, text string) {
+	if rs.Tok != token.DEFINE || rs.Key == nil || !isIdent(rs.Key, "_") || rs.Value == nil {
+		w.fail(rs, "range loop form (expected `for _, x := range doc.Definitions`)")
+	}
+	xid, ok := rs.Value.(*ast.Ident)
+	sel, ok2 := unparen(rs.X).(*ast.SelectorExpr)
+	if !ok || !ok2 || sel.Sel.Name != "Definitions" {
+		w.fail(rs, "range loop over %s", w.src(rs.X))
+	}
+	if b, _, ok := w.lookup(top, sel.X); !ok || b.k != kOpaque {
+		w.fail(rs, "range loop over %s", w.src(rs.X))
+	}
+	// the loop-carried variable: the one outer variable the body assigns
+	carried := map[string]bool{}
+	ast.Inspect(rs.Body, func(n ast.Node) bool {
+		as, ok := n.(*ast.AssignStmt)
+		if !ok || as.Tok != token.ASSIGN {
+			return true
+		}
+		for _, l := range as.Lhs {
+			switch l := l.(type) {
+			case *ast.Ident:
+				if _, outer := top[l.Name]; outer {
+					carried[l.Name] = true
+				}
+			case *ast.IndexExpr:
+				if id, ok := unparen(l.X).(*ast.Ident); ok {
+					if _, outer := top[id.Name]; outer {
+						carried[id.Name] = true
+					}
+				}
+			}
+		}
+		return true
+	})
+	if len(carried) != 1 {
+		w.fail(rs, "a translated loop must assign exactly one outer variable (assigns %d)", len(carried))
+	}
+	var vname string
+	for n := range carried {
+		vname = n
+	}
+	v := top[vname]
+	switch v.k {
+	case kOp:
+		name = "opLoop"
+	case kTable:
+		name = "fragLoop"
+	default:
+		w.fail(rs, "the loop assigns %s, which is neither the operation variable nor the fragment table", vname)
+	}
+	// read-only string / int variables of the surrounding function that the body mentions: parameters
+	var params []string
+	seen := map[string]bool{}
+	ast.Inspect(rs.Body, func(n ast.Node) bool {
+		if id, ok := n.(*ast.Ident); ok && !seen[id.Name] {
+			if b, ok := top[id.Name]; ok && (b.k == kString || b.k == kInt) {
+				seen[id.Name] = true
+				params = append(params, id.Name)
+			}
+		}
+		return true
+	})
+	e := env{}
+	var sig, call strings.Builder
+	for _, p := range params {
+		b := top[p]
+		e[p] = b
+		ty := "String"
+		if b.k == kInt {
+			ty = "Int"
+		}
+		fmt.Fprintf(&sig, " (%s : %s)", b.lean, ty)
+		call.WriteString(" " + b.lean)
+	}
+	for n, b := range top { // other names the body may mention as positions only
+		if b.k == kOpaque {
+			e[n] = b
+		}
+	}
+	e[vname] = v
+	xl := w.declName(xid, e, xid.Name)
+	e[xid.Name] = bind{k: kDefElem, lean: xl, decl: newDecl()}
+	var b strings.Builder
+	fmt.Fprintf(&b, "def %s {κ : Type}%s : List (DefView κ) → (%s) → (%s)\n", name, sig.String(), leanType(v.k), leanType(v.k))
+	fmt.Fprintf(&b, "  | [], %s => %s\n  | %s :: rest, %s =>\n", v.lean, v.lean, xl, v.lean)
+	w.loopNext = func(e2 env, ind string) string {
+		return fmt.Sprintf("%s%s%s rest %s\n", ind, name, call.String(), v.lean)
+	}
+	w.loopBreak = func(e2 env, ind string) string { return ind + v.lean + "\n" }
+	b.WriteString(w.stmts(rs.Body.List, e, "    ", w.loopNext))
+	w.loopNext, w.loopBreak = nil, nil
+	w.lastLoopCall = call.String()
+	return name, b.String()
+}
+
 // ---- locating the pieces of ValidateCost
 
 func (w *wtr) checkFieldCostStruct(repo string) {
@@ -1117,6 +1398,8 @@ func translateWalk(repo string, base *tr, file *ast.File, fset *token.FileSet) (
 				top[n.Name] = bind{k: kFieldCost, lean: w.leanName(n, n.Name)}
 			case "string":
 				top[n.Name] = bind{k: kString, lean: w.leanName(n, n.Name)}
+			case "map[string]interface{}":
+				top[n.Name] = bind{k: kOpaque, lean: w.leanName(n, n.Name), aux: "request-variables"}
 			default:
 				top[n.Name] = bind{k: kOpaque, lean: w.leanName(n, n.Name)}
 			}
@@ -1183,7 +1466,10 @@ func translateWalk(repo string, base *tr, file *ast.File, fset *token.FileSet) (
 			case "map[string]interface{}":
 				top[name] = bind{k: kVars, lean: w.leanName(s, name)}
 			case "*ast.OperationDefinition":
-				top[name] = bind{k: kOpaque, lean: name}
+				if len(vs.Values) != 0 {
+					w.fail(s, "the operation variable must start as nil")
+				}
+				top[name] = bind{k: kOp, lean: w.leanName(s, name), decl: newDecl()}
 				opName = name
 			default:
 				if ft, ok := vs.Type.(*ast.FuncType); ok && len(ft.Params.List) == 1 && ft.Results == nil {
@@ -1314,7 +1600,7 @@ func translateWalk(repo string, base *tr, file *ast.File, fset *token.FileSet) (
 	var b strings.Builder
 	b.WriteString("/-\n  GENERATED by /verif/tools/c14facts from graphql/validator/validate_cost.go of the repository under\n  check — do not edit; regenerated at the start of every `./check C14` (pre_cmds of checks/C14.json).\n")
 	b.WriteString("  The ast.Inspect callback of ValidateCost (`callback`), the final block of the rule (`finish`) and the\n  initial values of the captured variables; see tools/c14facts/walk.go for the translation scheme and\n  WalkTypes.lean for the vocabulary.\n-/\n")
-	b.WriteString("import ApiFu.C14.WalkTypes\n\nnamespace ApiFu.C14.GeneratedWalk\nopen ApiFu.C14\n\n")
+	b.WriteString("import ApiFu.C14.WalkTypes\n\nset_option linter.unusedVariables false\n\nnamespace ApiFu.C14.GeneratedWalk\nopen ApiFu.C14\n\n")
 	fmt.Fprintf(&b, "def initCost : Int := %s\n", costInit)
 	fmt.Fprintf(&b, "def initMultipliers : List Int := [%s]\n", strings.Join(initMult, ", "))
 	fmt.Fprintf(&b, "def initCtxs {κ : Type} (background : κ) : List κ := %s\n", initCtx)
@@ -1326,6 +1612,29 @@ func translateWalk(repo string, base *tr, file *ast.File, fset *token.FileSet) (
 			b.WriteString("    " + strings.ReplaceAll(strings.ReplaceAll(l, "-/", "- /"), "/-", "/ -") + "\n")
 		}
 		b.WriteString("-/\n")
+	}
+	// the two loops over doc.Definitions (operation choice, fragment table)
+	loopsSeen := map[string]bool{}
+	loopParams := map[string]string{}
+	for _, st := range rule.Body.List {
+		rs, ok := st.(*ast.RangeStmt)
+		if !ok {
+			if _, isFor := st.(*ast.ForStmt); isFor {
+				w.fail(st, "for loop form")
+			}
+			continue
+		}
+		lname, ltext := w.loop(rs, top)
+		loopParams[lname] = w.lastLoopCall
+		if loopsSeen[lname] {
+			w.fail(rs, "two loops assign the same variable")
+		}
+		loopsSeen[lname] = true
+		comment(rs)
+		b.WriteString(ltext + "\n")
+	}
+	if !loopsSeen["opLoop"] || !loopsSeen["fragLoop"] {
+		w.fail(rule, "the operation-choice loop or the fragment-table loop was not found")
 	}
 	comment(callback)
 	param := callback.Type.Params.List[0].Names[0].Name
@@ -1351,7 +1660,7 @@ func translateWalk(repo string, base *tr, file *ast.File, fset *token.FileSet) (
 	finEnv := env{}
 	for n, bd := range top {
 		switch bd.k {
-		case kErrs, kOpaque:
+		case kErrs, kOpaque, kOp:
 			finEnv[n] = bd
 		case kInt, kActualPtr:
 			finEnv[n] = bd
@@ -1371,6 +1680,119 @@ func translateWalk(repo string, base *tr, file *ast.File, fset *token.FileSet) (
 		w.fail(rule, "the rule reaches its end without a return")
 		return ""
 	}))
+	b.WriteString("\n")
+
+	// the body of the rule itself: declarations, the two loops, the CoerceVariableValues guard, the start of
+	// the walk, and the final block (as a call of `finish`)
+	w.inFinish, w.inRule = false, true
+	comment(rule.Body)
+	var opParams string
+	ruleEnv := env{}
+	for n, bd := range top {
+		switch bd.k {
+		case kOpaque, kString, kActualPtr, kFieldCost, kTypeInfo:
+			ruleEnv[n] = bd
+		case kInt:
+			if n == maxName {
+				ruleEnv[n] = bd
+			}
+		}
+	}
+	for n, bd := range top {
+		if bd.k == kString {
+			opParams += fmt.Sprintf(" (%s : String)", bd.lean)
+			_ = n
+		}
+	}
+	fmt.Fprintf(&b, "def rule {κ : Type} (background : κ)%s (%s : Int) (actual_nonnil : Bool) (variablesCoerce : Bool)\n    (definitions : List (DefView κ))\n    (%s : Bool → (String → Option (Node κ)) → Node κ → GSt κ → Except Abort (GSt κ)) :\n    Except Abort (List GErr × Option Int) :=\n",
+		opParams, top[maxName].lean, visitLean)
+	var ruleStmts func(list []ast.Stmt, e env, ind string) string
+	ruleStmts = func(list []ast.Stmt, e env, ind string) string {
+		if len(list) == 0 {
+			w.fail(rule, "the rule reaches its end without a return")
+		}
+		st, rest := list[0], list[1:]
+		next := func(e env, ind string) string { return ruleStmts(rest, e, ind) }
+		if st == tail[1] { // the final block: `finish` of the variables it reads
+			return fmt.Sprintf("%s.ok (finish %s actual_nonnil %s %s)\n", ind, top[maxName].lean, w.stNames[0], w.stNames[4])
+		}
+		bindFrom := func(name string) (env, bind) {
+			bd, ok := top[name]
+			if !ok {
+				w.fail(st, "declaration of %s, which the translation does not know", name)
+			}
+			e2 := e.copy()
+			e2[name] = bd
+			return e2, bd
+		}
+		switch s := st.(type) {
+		case *ast.DeclStmt:
+			gd, ok := s.Decl.(*ast.GenDecl)
+			if !ok || gd.Tok != token.VAR || len(gd.Specs) != 1 || len(gd.Specs[0].(*ast.ValueSpec).Names) != 1 {
+				w.fail(s, "declaration %s", w.src(s))
+			}
+			e2, bd := bindFrom(gd.Specs[0].(*ast.ValueSpec).Names[0].Name)
+			switch bd.k {
+			case kErrs:
+				return fmt.Sprintf("%slet %s : List GErr := []\n", ind, bd.lean) + next(e2, ind)
+			case kOp:
+				return fmt.Sprintf("%slet %s : %s := none\n", ind, bd.lean, leanType(kOp)) + next(e2, ind)
+			case kVars:
+				return fmt.Sprintf("%slet %s : Bool := false\n", ind, bd.lean) + next(e2, ind)
+			case kInt:
+				return fmt.Sprintf("%slet %s : Int := %s\n", ind, bd.lean, costInit) + next(e2, ind)
+			case kVisit:
+				return ind + "-- " + strings.ReplaceAll(w.src(s), "\n", " ") + "\n" + next(e2, ind)
+			}
+			w.fail(s, "declaration %s", w.src(s))
+		case *ast.AssignStmt:
+			if len(s.Lhs) == 1 {
+				if id, ok := s.Lhs[0].(*ast.Ident); ok {
+					if _, isFn := s.Rhs[0].(*ast.FuncLit); isFn && id.Name == visitName && s.Tok == token.ASSIGN {
+						return ind + "-- " + id.Name + " = func(…) { ast.Inspect(node, callback) }   (see `callback`)\n" + next(e, ind)
+					}
+					if _, isLit := s.Rhs[0].(*ast.CompositeLit); isLit && s.Tok == token.DEFINE {
+						e2, bd := bindFrom(id.Name)
+						switch bd.k {
+						case kStackInt:
+							return fmt.Sprintf("%slet %s : List Int := [%s]\n", ind, bd.lean, strings.Join(initMult, ", ")) + next(e2, ind)
+						case kStackCtx:
+							return fmt.Sprintf("%slet %s : List κ := %s\n", ind, bd.lean, initCtx) + next(e2, ind)
+						case kSet:
+							return fmt.Sprintf("%slet %s : List String := []\n", ind, bd.lean) + next(e2, ind)
+						case kTable:
+							return fmt.Sprintf("%slet %s : %s := GoMap.empty\n", ind, bd.lean, leanType(kTable)) + next(e2, ind)
+						}
+					}
+				}
+			}
+			w.fail(s, "statement of the rule: %s", strings.SplitN(w.src(s), "\n", 2)[0])
+		case *ast.RangeStmt:
+			lname, _ := w.loop(s, top)
+			var vb bind
+			for _, bd := range top {
+				if (lname == "opLoop" && bd.k == kOp) || (lname == "fragLoop" && bd.k == kTable) {
+					vb = bd
+				}
+			}
+			if _, declared := func() (bind, bool) {
+				for _, x := range e {
+					if x.lean == vb.lean && x.k == vb.k {
+						return x, true
+					}
+				}
+				return bind{}, false
+			}(); !declared {
+				w.fail(s, "the loop runs before its variable is declared")
+			}
+			return fmt.Sprintf("%slet %s : %s := %s%s definitions %s\n", ind, vb.lean, leanType(vb.k), lname, loopParams[lname], vb.lean) + next(e, ind)
+		case *ast.IfStmt:
+			return w.ifStmt(s, e, ind, next)
+		}
+		w.fail(st, "statement of the rule: %s", strings.SplitN(w.src(st), "\n", 2)[0])
+		return ""
+	}
+	b.WriteString(ruleStmts(rule.Body.List, ruleEnv, "  "))
 	b.WriteString("\nend ApiFu.C14.GeneratedWalk\n")
 	return b.String(), nil
 }
